@@ -487,6 +487,23 @@ def apply_rws(sf, ed, spec, lo_rw, hi_rw, arms=()):
                 ed.rw(st[h].start, st[h1].end, new, tag)
 
 
+def auto_r2(sf, ed, lo, hi, arms=()):
+    """Rule R2, applied wherever it is needed: a closure parameter `_` (Verus: "only variables are supported here")
+    becomes a named unused variable. Skipped where an explicit rewrite already covers the token."""
+    st = sf.st
+    n = 0
+    for (po, pc, b0, b1, is_block) in find_closures(sf, lo, hi):
+        for k in range(po + 1, pc):
+            if st[k].text == '_' and st[k - 1].text in ('|', ',') and st[k + 1].text in ('|', ',', ':'):
+                s0, e0 = st[k].start, st[k].end
+                if any(e[0] <= s0 < e[0] + max(e[1], 1) or (s0 <= e[0] < e0) for e in ed.ed if e[1] > 0):
+                    continue
+                if any(a['p0'] <= k <= a['e'] for a in arms):
+                    continue
+                n += 1
+                ed.rw(s0, e0, '_vx_unused%d' % n, 'R2')
+
+
 def emit_item(spec, log, vacuity=False):
     sf, chain = locate(spec.path)
     it = chain[-1]
@@ -593,6 +610,8 @@ def emit_item(spec, log, vacuity=False):
     if 'splitarms' in spec.opts and is_fn and body_open is not None and 'sigonly' not in spec.opts:
         arms = find_or_arms(sf, body_open + 1, it.last)
     apply_rws(sf, ed, spec, lo_rw, hi_rw, arms)
+    if is_fn and body_open is not None and 'sigonly' not in spec.opts:
+        auto_r2(sf, ed, body_open + 1, it.last, arms)
     render_or_arms(sf, ed, arms)
     for key in spec.sections:
         if key not in used and key != 'pre':
@@ -690,6 +709,7 @@ def emit_slice(spec, log, vacuity=False):
     annotate_closures(sf, ed, spec, lo, hi + 1, set())
     place_ghost_at_anchors(sf, ed, spec, lo, hi + 1, set())
     apply_rws(sf, ed, spec, lo, hi + 1)
+    auto_r2(sf, ed, lo, hi + 1)
     text = ed.render()
     log.append({'path': spec.path + ' :: ' + desc, 'file': sf.rel, 'start': start, 'end': end, 'sigonly': False, 'slice': True,
                 'rewrites': sorted(set(['S1'] + [r[0] for r in spec.rws] + [e[3] for e in ed.ed if e[3]])),
